@@ -90,16 +90,17 @@ func (s *splitState) getDiff(v ssa.Value) iv {
 }
 
 type splitAnalysis struct {
-	p         *Prog
-	fn        *ssa.Function
-	data      *ssa.Parameter
-	atEOF     *ssa.Parameter
-	sites     []*lookahead // guarded look-ahead index sites
-	probs     []string
-	undecided string
-	na        *NilAnalysis
-	nPaths    int
-	nRet      int
+	refineDepth int
+	p           *Prog
+	fn          *ssa.Function
+	data        *ssa.Parameter
+	atEOF       *ssa.Parameter
+	sites       []*lookahead // guarded look-ahead index sites
+	probs       []string
+	undecided   string
+	na          *NilAnalysis
+	nPaths      int
+	nRet        int
 }
 
 type lookahead struct {
@@ -163,6 +164,11 @@ func (a *splitAnalysis) isIndexSearch(v ssa.Value) bool {
 
 // refine applies the branch condition (taken = which edge) to the state; false when infeasible.
 func (a *splitAnalysis) refine(s *splitState, cond ssa.Value, taken bool) bool {
+	if a.refineDepth > 40 {
+		return true // no refinement: the path stays feasible
+	}
+	a.refineDepth++
+	defer func() { a.refineDepth-- }()
 	switch c := cond.(type) {
 	case *ssa.Const:
 		if c.Value != nil && c.Value.Kind() == constant.Bool {
